@@ -88,8 +88,10 @@ class GptRun:
         a = self.pre._assignment
         for mod, (name, layer) in self.pre._layers.items():
             if a.inv_worker(name, 'A') == self.rank:
-                out[name] = {'A': layer.a_factor.detach().clone(),
-                             'G': layer.g_factor.detach().clone()}
+                fa, fg = layer.a_factor, layer.g_factor
+                out[name] = {
+                    'A': None if fa is None else fa.detach().clone(),
+                    'G': None if fg is None else fg.detach().clone()}
         return out
 
     def do(self, op, idx):
@@ -110,6 +112,16 @@ class GptRun:
             sd = self.pre.state_dict()
             ev['saved'] = K.snap_state(sd)
             ev['factors_here'] = self.factors_here()
+            a = self.pre._assignment
+            ev['inv_worker'] = {n: a.inv_worker(n, 'A')
+                                for n in a.get_layers()}
+            ev['factor_worker'] = {n: a.factor_worker(n, 'A')
+                                   for n in a.get_layers()}
+            # the checkpoint is complete before anybody restarts from it
+            old = self.world.tag[self.rank]
+            self.world.tag[self.rank] = ('harness-barrier',)
+            dist.barrier()
+            self.world.tag[self.rank] = old
             if self.tmpdir and os.path.isdir(self.tmpdir):
                 ev['files'] = {f: torch.load(os.path.join(self.tmpdir, f))
                                for f in sorted(os.listdir(self.tmpdir))}
@@ -119,9 +131,10 @@ class GptRun:
             self.model = model
             self.pre = self._mk_pre(model)
             self.pre.load_state_dict(sd, compute_inverses=compute)
-            ev['holds_after_load'] = {
-                name: (layer._a_factor is not None,
-                       getattr(layer, '_qa', None) is not None)
+            ev['after_load'] = {
+                name: {'A': layer._a_factor, 'G': layer._g_factor,
+                       'has_so': getattr(layer, '_qa', None) is not None
+                       and getattr(layer, '_qg', None) is not None}
                 for _, (name, layer) in self.pre._layers.items()}
             self.world.set_digest(
                 lambda: _kfac_state(self.pre, (), len(self.rec)))
